@@ -123,11 +123,14 @@ let () =
   let prot_selftest = (try Sys.getenv "MODEL_PROT_SELFTEST" = "1" with Not_found -> false) in
   let scope_on = (try Sys.getenv "MODEL_SCOPE_CHECK" = "1" with Not_found -> false) in
   let scope_msg = ref "" in
+  let view_on = (try Sys.getenv "MODEL_VIEW_CHECK" = "1" with Not_found -> false) in
+  let view_msg = ref "" in
   let prot_failed = ref false and prot_msg = ref "" in
   let acc_failed = ref false and acc_msg = ref "" and acc_step = ref 0 in
   let acc_addrs = ref (List.filter (fun a -> string_of_n a <> "0") !inits) in
   let acc_conts = List.init 12 n_of_int and acc_thrs = List.init 12 n_of_int and acc_hnds = List.init 200 n_of_int in
   let st = ref (init_state !inits (List.rev !threads)) in
+  let vg = ref (vghost0 !st) in
   let sc = if sched_file = "-" then stdin else open_in sched_file in
   (try
      while true do
@@ -140,7 +143,14 @@ let () =
                if not (scope_step !st acc_thrs tn xn) then
                  scope_msg := Printf.sprintf ". SCOPE-OUT step %d (a hypothesis of Main.RunOK does not hold in the state before this step)" !acc_step
              end;
-             let (s', evs) = step_stale2 cf !st tn xn in
+             if view_on then begin
+               (* the views of StaleCView.v: is the value supplied at Cache::revalidate a write this thread may still read? *)
+               if !view_msg = "" && not (staleC_okb !vg !st tn xn) then
+                 view_msg := Printf.sprintf ". VIEW-OUT step %d (the stale value supplied at Cache::revalidate is not a write the thread may still read: StaleCView.staleC_ok)" !acc_step;
+               let (_, g') = vstep3 cf (!st, !vg) tn xn in
+               vg := g'
+             end;
+             let (s', evs) = step_stale3 cf !st tn xn in
              st := s';
              if acc_on then List.iter (fun e -> match e with EvAlloc (a, _) -> if not (List.mem a !acc_addrs) then acc_addrs := a :: !acc_addrs | _ -> ()) evs;
              if acc_on && not !acc_failed then begin
@@ -174,6 +184,7 @@ let () =
   if !acc_failed then print_endline !acc_msg;
   if !prot_failed then print_endline !prot_msg;
   if !scope_msg <> "" then print_endline !scope_msg;
+  if !view_msg <> "" then print_endline !view_msg;
   (* final state, in the harness's format *)
   let s = !st in
   let all_cmds = List.concat (List.rev !threads) in
